@@ -48,7 +48,9 @@ def window_rounding(prog, rep, rule="ROUND"):
         cons = "end rounding"
         us = ("v", "endtime.microsecond")
         MS = ("add", ("c", 1), ("fdiv", us, ("c", 1000)))
-        M_ok = ("mod", ("mul", ("c", 1000), MS), ("c", 1000000))
+        from ..affine import canon_mod
+
+        M_ok = canon_mod(("mul", ("c", 1000), MS), ("c", 1000000))
         S_ok = ("fdiv", MS, ("c", 1000))
         repl, delta = None, None
         if isinstance(v, ast.BinOp) and isinstance(v.op, ast.Add):
@@ -145,55 +147,53 @@ def peewee_clip(prog, rep, rule="CLIP"):
                     rep.violation(rule, fi.short, f"store {norm(t)}", "the clip loop writes into event data", fi.loc(n))
         if isinstance(n, ast.Call) and isinstance(n.func, ast.Attribute) and n.func.attr in ("append", "remove", "pop", "insert", "clear", "update", "extend") :
             rep.violation(rule, fi.short, f"call {norm(n.func)}", "the clip loop mutates a container", fi.loc(n))
-    # blocks: innermost ifs with comparisons
+    # every path through the loop body: what it assumes about the event and the window, and what it leaves behind
+    from ..paths import summarize
+
     env = Env(fi, prog, subst={"starttime": W_START, "endtime": W_END}, inline_locals=False)
     T, D = Form.atom(f"{var}.timestamp"), Form.atom(f"{var}.duration")
-    blocks = []
-
-    def collect(stmts, guards):
-        for st in stmts:
-            if isinstance(st, ast.If):
-                if isinstance(st.test, ast.Compare):
-                    blocks.append((st, guards))
-                    if st.orelse:
-                        rep.undecided(rule, fi.short, "clip branch", "else-branch in clip logic", fi.loc(st))
-                else:
-                    collect(st.body, guards + [norm(st.test)])
-                    collect(st.orelse, guards + ["not " + norm(st.test)])
-            elif isinstance(st, (ast.Assign, ast.AugAssign)):
-                rep.violation(rule, fi.short, f"unguarded {norm(st)[:50]}", "an event field is assigned outside a window-edge comparison", fi.loc(st))
-
-    collect(loop.body, [])
-    state = State()
+    WS, WE = Form.atom(W_START), Form.atom(W_END)
+    try:
+        sums, _g = summarize(fi=None, body=loop.body, env=env, limit=400)
+    except Exception as ex:
+        rep.undecided(rule, fi.short, "clip loop", f"cannot enumerate the clip loop's paths: {ex}", fi.loc(loop))
+        return
     seen_start = seen_end = False
-    for st, guards in blocks:
-        try:
-            lit = literal(st.test, env)
-            lit = Lit(_subst(lit.form, state), lit.op)
-            before_ts = state.vals.get(f"{var}.timestamp", T)
-            before_end = before_ts + state.vals.get(f"{var}.duration", D)
-            s2 = state.copy()
-            exec_block(st.body, env, s2)
-            ts2 = s2.vals.get(f"{var}.timestamp", T)
-            end2 = ts2 + s2.vals.get(f"{var}.duration", D)
-        except NonAffine as e:
-            rep.undecided(rule, fi.short, f"clip branch `{norm(st.test)}`", f"not affine: {e}", fi.loc(st))
+    reported = set()
+    for s_ in sums:
+        if s_.undecided:
+            rep.undecided(rule, fi.short, "clip branch", "; ".join(s_.undecided)[:120], fi.loc(loop))
             continue
-        g_start = Lit(T - Form.atom(W_START), "<")  # e.ts < w.start
-        g_end = Lit(Form.atom(W_END) - T - D, "<")  # e.ts + e.dur > w.end
-        if lit == g_start or lit == Lit(T - Form.atom(W_START), "<="):
-            seen_start = True
-            ok = ts2 == Form.atom(W_START) and end2 == before_end and "starttime" in " ".join(guards)
-            rep.check(ok, rule, fi.short, "clip at window start", "event becomes [w.start, old end]", f"under `{norm(st.test)}` the event becomes [{ts2!r}, {end2!r}] instead of [w.start, {before_end!r}]", fi.loc(st), expected="timestamp := w.start, end unchanged", found=f"timestamp := {ts2!r}, end := {end2!r}")
-        elif lit == g_end or lit == Lit(Form.atom(W_END) - T - D, "<="):
-            seen_end = True
-            ok = ts2 == before_ts and end2 == Form.atom(W_END) and "endtime" in " ".join(guards)
-            rep.check(ok, rule, fi.short, "clip at window end", "event becomes [timestamp, w.end]", f"under `{norm(st.test)}` the event becomes [{ts2!r}, {end2!r}] instead of [{before_ts!r}, w.end]", fi.loc(st), expected="end := w.end, timestamp unchanged", found=f"timestamp := {ts2!r}, end := {end2!r}")
-        else:
-            # a guard that is neither: the assignment changes events that are inside the window
-            changed = ts2 != before_ts or end2 != before_end
-            if changed:
-                rep.violation(rule, fi.short, f"clip branch `{norm(st.test)}`", f"event fields are re-assigned under `{norm(st.test)}` ({lit!r}), which is not 'event starts before the window' / 'event ends after the window': events are altered although they lie inside the window", fi.loc(st))
+        ts2 = s_.state.vals.get(f"{var}.timestamp", T)
+        end2 = ts2 + s_.state.vals.get(f"{var}.duration", D)
+        start_clip = any(l.form == T - WS and l.op in ("<", "<=") for l in s_.lits)
+        end_clip = any(l.form == WE - T - D and l.op in ("<", "<=") for l in s_.lits)
+        has_ws = any(t in ("starttime", "starttime is not None") and p_ for t, p_ in s_.opaque)
+        has_we = any(t in ("endtime", "endtime is not None") and p_ for t, p_ in s_.opaque)
+        want_ts = WS if start_clip else T
+        want_end = WE if end_clip else T + D
+        # both edges must be decided on every path (clipped, found inside, or edge not given)
+        dec_start = start_clip or any(l.form == WS - T and l.op in ("<", "<=") for l in s_.lits) or any(t in ("starttime", "starttime is not None") and not p_ for t, p_ in s_.opaque)
+        dec_end = end_clip or any(l.form == T + D - WE and l.op in ("<", "<=") for l in s_.lits) or any(t in ("endtime", "endtime is not None") and not p_ for t, p_ in s_.opaque)
+        if (seen_any_clip := (start_clip or end_clip)) and not (dec_start and dec_end):
+            k2 = ("undecided-edge", start_clip, end_clip, dec_start, dec_end)
+            if k2 not in reported:
+                reported.add(k2)
+                rep.violation(rule, fi.short, f"path that never looks at the window {'start' if not dec_start else 'end'}", f"a path through the clip loop (conditions {sorted(map(repr, s_.lits))}) clips one edge without testing the other: an event that sticks out of the window on both sides is cut on one side only, so the returned event is not the stored event cut to the window", fi.loc(loop))
+        seen_start = seen_start or start_clip
+        seen_end = seen_end or end_clip
+        conds = sorted(map(repr, s_.lits)) + sorted(f"{'' if p_ else 'not '}{t}" for t, p_ in s_.opaque)
+        key = (repr(ts2), repr(end2), start_clip, end_clip)
+        if key in reported:
+            continue
+        reported.add(key)
+        if not start_clip and not end_clip:
+            ok = ts2 == T and end2 == T + D
+            rep.check(ok, rule, fi.short, f"unclipped path {conds}"[:100], "event left as stored", f"event fields are re-assigned (to [{ts2!r}, {end2!r}]) on a path that establishes neither 'event starts before the window' nor 'event ends after the window' (conditions {conds}): events are altered although they lie inside the window", fi.loc(loop))
+            continue
+        ok = ts2 == want_ts and end2 == want_end and (has_ws or not start_clip) and (has_we or not end_clip)
+        what = ("clip at window start" if start_clip else "") + (" and " if start_clip and end_clip else "") + ("clip at window end" if end_clip else "")
+        rep.check(ok, rule, fi.short, what, f"event becomes [{want_ts!r}, {want_end!r}]", f"on the path {conds} the event becomes [{ts2!r}, {end2!r}] instead of [{want_ts!r}, {want_end!r}]" + ("" if (has_ws or not start_clip) and (has_we or not end_clip) else " (the window edge is used without testing that it was given)"), fi.loc(loop), expected=f"[{want_ts!r}, {want_end!r}]", found=f"[{ts2!r}, {end2!r}]")
     rep.extra["clip"] = {"start": seen_start, "end": seen_end}
 
 
